@@ -71,7 +71,7 @@ def budget(tier: str) -> dict:
 def _case(draw):
     d = gen.D(draw)
     form = d.pick(["backslash", "refs", "refs"])
-    n = d.i(1, 12)
+    n = d.i(1, 12) if d.chance(0.9) else d.i(20, 70)
     chars = []
     for _ in range(n):
         k = d.i(0, 99)
@@ -174,6 +174,8 @@ def check(case) -> Res:
             "paragraph": (s + "\n", f"<p>{T}</p>\n"),
             "heading": ("# " + s + "\n", f"<h1>{T}</h1>\n"),
             "emphasis": ("*" + s + "*\n", f"<p><em>{T}</em></p>\n"),
+            "strong": ("**" + s + "**\n", f"<p><strong>{T}</strong></p>\n"),
+            "strike": ("~~" + s + "~~\n", f"<p><s>{T}</s></p>\n"),
             "linktext": ("[" + s + "](u)\n", f'<p><a href="u">{T}</a></p>\n'),
             "imagealt": ("![" + s + "](u)\n", f'<p><img src="u" alt="{T}"{void}></p>\n'),
             "title": ('[x](u "' + e0 + s + e1 + '")\n', f'<p><a href="u" title="{escape_ref(e0 + t + e1)}">x</a></p>\n'),
